@@ -301,6 +301,24 @@ def run(ctx: Ctx) -> None:
                     ctx.violation("C08/frame_fn_count_increases_when_threshold_loosened", info, tap="comparator")
                     break
             ctx.case(("passfail_sweep", seen[len(cuts) - 1][0] > seen[0][0], seen[len(cuts) - 1][1] < seen[0][1]), nontrivial=seen[len(cuts) - 1] != seen[0])
+            # per-label threshold vectors (each label its own value, labels listed in another order than in the critical
+            # filter): a TP whose ground-truth label gets a looser-or-equal threshold in another evaluation is a TP there too
+            if len(labels) >= 2 and scores:
+                rr = ctx.rng("passfail_vectors", len(results) * 1000 + len(gts))
+                lab_rot = labels[1:] + labels[:1]
+                evals = []
+                for _ in range(4):
+                    vec = {l: rr.choice(cuts) for l in lab_rot}
+                    pfr.frame_pass_fail_config = PerceptionPassFailConfig(evaluator_config=config, target_labels=lab_rot, matching_threshold_list=[vec[l] for l in lab_rot])
+                    pfr.evaluate(results, gts)
+                    evals.append((vec, {id(r_.estimated_object): str(r_.ground_truth_object.semantic_label.label.value) for r_ in pfr.tp_object_results}))
+                ctx.count("C08.passfail_vector_evaluations", len(evals))
+                for va, tpa in evals:
+                    for vb, tpb in evals:
+                        for eid, lab in tpa.items():
+                            if lab in va and lab in vb and vb[lab] >= va[lab] and eid not in tpb:
+                                ctx.violation("C08/frame_tp_lost_when_its_labels_threshold_loosened", dict(level="frame_pass_fail", labels=lab_rot, tight=va, loose=vb, label=lab), tap="comparator")
+                                return
 
         run_direct_frames(ctx, "passfail_sweep", 120 if ctx.quick else 12000, after=sweep)
 
